@@ -580,6 +580,30 @@ def r176(facts, res):
     res.floor(R, 'round loops of the cost functions', n, 2)
 
 
+def acc_roles(facts, b, accs):
+    """accumulator -> set of truth values a summary flag had on the rounds of the production loop that stored into it"""
+    from lrstep import widening_walker
+    flags = {l for l, c, _ib, _hh, _inl in summary_flags(b) if c == 1}
+    stores = _acc_store_blocks(b, accs)
+    loops = b.loops()
+    out = {}
+    for acc in sorted(stores):
+        inits = [bb for bb, kind, rv in b.defs().get(acc, ()) if kind == 'stmt' and 'agg' in rv and isinstance(rv['agg'], dict) and rv['agg'].get('vname') == 'None']
+        cands = [h for h in loops if stores[acc] & loops[h] and not any(i in loops[h] for i in inits)]
+        if not cands or not inits:
+            continue
+        h = max(cands, key=lambda x: len(loops[x]))
+        wk = widening_walker(b, facts, max_paths=20000)
+        acc0 = ('widen', b.path, h, acc, ('uninit', acc))
+        for p in wk.run(start=h, stop=lambda bb, L=loops[h]: bb not in L):
+            if p.end[0] != 'loop' or wk.as_value(p.env, wk.read_key(p.env, (acc, ()))) == acc0:
+                continue
+            for c, v in p.conds:
+                if isinstance(v, int) and c[0] in ('widen', 'uninit') and (c[3] if c[0] == 'widen' else c[1]) in flags:
+                    out.setdefault(acc, set()).add(v)
+    return out
+
+
 def r177(facts, res):
     """rule_max_costs may declare a rule's maximum final only when none of its productions is still incomplete (the cost of an
     incomplete production is a lower bound that can still grow), or when the maximum is already infinite."""
@@ -610,15 +634,27 @@ def r177(facts, res):
     if not ps or w.overflow:
         res.lost(R, 'cannot enumerate the paths to the finalising store of rule_max_costs')
         return
-    accs = {l for l, ty in enumerate(b.locals) if ty['ty'].startswith('core::option::Option<u') and b.name_of(l)}
-    noncmplt = [l for l in accs if 'non' in (b.name_of(l) or '')]
+    accs = {l for l, ty in enumerate(b.locals) if ty['ty'].startswith('core::option::Option<u') and b.name_of(l) and l > b.arg_count}
+    # the accumulator of INCOMPLETE productions, by role: the one that takes the candidate on rounds of the production loop on which
+    # an "all symbols done" summary flag (initially true, cleared in the symbol loop) was found false
+    roles = acc_roles(facts, b, accs)
+    noncmplt = [l for l in accs if 0 in roles.get(l, ()) and 1 not in roles.get(l, ())]
+    wmax = {(1 << int(m_.group(1))) - 1 for m_ in (re.search(r'Option<u(\d+)', b.lty(l)) for l in accs) if m_}
+
+    def of_nc(x):
+        return isinstance(x, tuple) and len(x) > 3 and x[0] == 'widen' and x[3] in noncmplt
     bad = None
     for p in ps:
         ok = False
         for c, v in p.conds:
-            if is_call(c, 'is_none') and v == 1 and any(term_has(c, lambda x, l=l: isinstance(x, tuple) and len(x) > 3 and x[0] == 'widen' and x[3] == l) for l in noncmplt):
+            # "no production was incomplete": is_none / !is_some / discriminant 0 of the incomplete accumulator
+            if is_call(c, 'is_none') and v == 1 and term_has(c, of_nc):
                 ok = True
-            if c[0] == 'bin' and c[1] == 'Eq' and v == 1 and (c[2] == ('const', 65535) or c[3] == ('const', 65535)):
+            if is_call(c, 'is_some') and v == 0 and term_has(c, of_nc):
+                ok = True
+            if c[0] == 'discr' and of_nc(c[1]) and (v == 0 or (isinstance(v, tuple) and v[0] == 'ne' and 1 in v[1])):
+                ok = True
+            if c[0] == 'bin' and c[1] == 'Eq' and v == 1 and any(is_const(x) and x[1] in wmax for x in (c[2], c[3])):
                 ok = True
         if not ok:
             bad = 'a rule\'s maximum is declared final on a path (blocks %s) on which a production of the rule is still incomplete and the maximum is not infinite: the incomplete production\'s cost is only a lower bound' % p.blocks[-8:]
